@@ -459,7 +459,8 @@ def case_allchunks(ctx, inp):
 
 
 def gen_allchunks(thorough):
-    shapes = [([4], [4]), ([3], [1]), ([2, 3], [3]), ([2, 3], [2, 1]), ([1, 3], [2, 1]), ([0, 2], [2])]
+    shapes = [([4], [4]), ([3], [1]), ([2, 3], [3]), ([2, 3], [2, 1]), ([1, 3], [2, 1]), ([0, 2], [2]),
+              ([0, 4], [0, 4]), ([0, 4], [1, 4]), ([3, 0], [3, 1])]
     if thorough:
         shapes += [([6], [6]), ([4, 3], [4, 3]), ([3, 2, 2], [2, 2]), ([3, 2, 2], [3, 1, 2]), ([5], [5])]
     for sa, sb in shapes:
@@ -470,8 +471,106 @@ def gen_allchunks(thorough):
 
 # ------------------------------------------------------------------------------------------------
 
+# ------------------------------------------------------------------------------------------------
+# API level: results that differ only in `out=` (with a `where=` mask) must not share a name
+# ------------------------------------------------------------------------------------------------
+
+def case_outname(ctx, inp):
+    import numpy as np
+    import dask
+    import dask.array as da
+    shape = inp["shape"]
+    a = U.leaf_data(shape, "f8", 1)
+    b = U.leaf_data(shape, "f8", 2)
+    w = U.leaf_data(inp["wshape"], "bool", inp.get("salt", 3))
+    if w.all():
+        w = ~w if w.size == 1 or inp.get("salt", 3) % 2 else w & (np.arange(w.size).reshape(w.shape) % 2 == 0)
+    o1 = np.full(shape, 10.0)
+    o2 = np.full(shape, 20.0)
+    ch = tuple(tuple(c) for c in inp["chunks"])
+    f_np, f_da = getattr(np, inp["f"]), getattr(da, inp["f"])
+    args_np = (a, b) if f_np.nin == 2 else (a,)
+    dargs = tuple(da.from_array(x, chunks=ch) for x in args_np)
+    dw = da.from_array(w, chunks=tuple(tuple(c) for c in inp["wchunks"]))
+    do1, do2 = da.from_array(o1.copy(), chunks=ch), da.from_array(o2.copy(), chunks=ch)
+    e1 = f_np(*args_np, where=w, out=o1.copy())
+    e2 = f_np(*args_np, where=w, out=o2.copy())
+    r1 = f_da(*dargs, where=dw, out=do1)
+    r2 = f_da(*dargs, where=dw, out=do2)
+    g1, g2 = dask.compute(r1, r2, scheduler="sync")
+    def same(x, y):
+        return bool(np.array_equal(x, y, equal_nan=True))
+    if not (same(g1, e1) and same(g2, e2)):
+        ctx.fail("two ufunc results that differ only in out= are mixed up when computed together",
+                 observed=[np.asarray(g1).tolist(), np.asarray(g2).tolist()], expected=[e1.tolist(), e2.tolist()])
+    if not same(e1, e2) and r1.name == r2.name:
+        ctx.fail("results with different values share a name", observed=r1.name)
+    s1, s2 = r1.compute(scheduler="sync"), r2.compute(scheduler="sync")
+    if not (same(s1, e1) and same(s2, e2)):
+        ctx.fail("ufunc(where=, out=) differs from NumPy when computed alone")
+    if not same(e1, e2):
+        ctx.branch("out-shows-through-mask")
+    ctx.branch("outname")
+
+
+# ------------------------------------------------------------------------------------------------
+# structured stream: a zero-length dimension next to a longer dimension whose chunkings differ between the operands
+# ------------------------------------------------------------------------------------------------
+
+def gen_zerodim(rng):
+    nd = rng.randint(1, 3)
+    zpos = rng.randrange(nd)
+    shape = [0 if i == zpos else rng.randint(2, 6) for i in range(nd)]
+    if rng.random() < 0.25 and nd >= 2:
+        shape[rng.choice([i for i in range(nd) if i != zpos])] = 1
+
+    def chunks_for(sh):
+        out = []
+        for s in sh:
+            if s == 0:
+                out.append([0] * rng.choice([1, 1, 2, 3]))
+            else:
+                out.append(U.rand_chunks(rng, [s], zeros=0.15)[0])
+        return out
+    salt = [rng.randint(0, 20)]
+
+    def leaf(sh, dt="i8"):
+        salt[0] += 1
+        return {"op": "leaf", "shape": list(sh), "chunks": chunks_for(sh), "dtype": dt, "salt": salt[0]}
+    a = leaf(shape, rng.choice(["i8", "f8"]))
+    t = rng.random()
+    if t < 0.45:
+        shb = list(shape)                                  # same shape, other chunking
+    elif t < 0.8:
+        shb = [s if (rng.random() < 0.5 or s == 0) else 1 for s in shape]   # (1, n) style broadcasting
+        if rng.random() < 0.4:
+            shb[zpos] = 1                                  # the zero-length dimension against length 1
+    else:
+        k = rng.randint(0, nd)
+        shb = list(shape[nd - k:])                         # fewer dimensions
+    b = leaf(shb, rng.choice(["i8", "f8", "bool"]))
+    p = {"op": "bin", "f": rng.choice(["add", "mul", "maximum", "less", "sub"]), "a": a, "b": b}
+    if rng.random() < 0.3:
+        c = leaf(shape)
+        p = {"op": "where", "c": {"op": "bin", "f": "less", "a": p, "b": {"op": "scalar", "v": 1}}, "a": p, "b": c} \
+            if rng.random() < 0.5 else {"op": "bin", "f": "add", "a": p, "b": c}
+    if rng.random() < 0.5:
+        p["a"], p["b"] = (p["b"], p["a"]) if p["op"] == "bin" and p["f"] in ("add", "mul", "maximum") else (p["a"], p["b"])
+    return p
+
+
+def _leaves(p, acc):
+    if isinstance(p, dict):
+        if p.get("op") == "leaf":
+            acc.append(p)
+        for v in p.values():
+            if isinstance(v, dict):
+                _leaves(v, acc)
+    return acc
+
+
 CASES = {"bshapes": case_bshapes, "cbd": case_cbd, "unify": case_unify, "argpos": case_argpos, "elem": case_elem,
-         "ufunc": case_ufunc, "allchunks": case_allchunks}
+         "ufunc": case_ufunc, "allchunks": case_allchunks, "outname": case_outname}
 
 
 def _rand_shape(rng, nd=None):
@@ -538,6 +637,24 @@ def generate(ctx):
         t = rng.random()
         ny = n if t < 0.5 else (1 if t < 0.85 else rng.randint(0, 7))
         yield "argpos", {"cx": U.rand_chunks(rng, [n], zeros=0.2)[0], "cy": U.rand_chunks(rng, [ny], zeros=0.2)[0]}
+    # zero-length dimension next to a longer, differently chunked dimension; several empty chunks (0,0) vs (0,0,0)
+    yield "cbd", {"blockdims": [[0, 0], [0, 0, 0]]}
+    yield "cbd", {"blockdims": [[0, 0], [0]]}
+    yield "unify", {"args": [{"ind": [0], "chunks": [[0, 0]]}, {"ind": [0], "chunks": [[0, 0, 0]]}], "lits": 0}
+    yield "unify", {"args": [{"ind": [1, 0], "chunks": [[0], [2, 2]]}, {"ind": [1, 0], "chunks": [[0], [1, 3]]}], "lits": 0}
+    yield "unify", {"args": [{"ind": [1, 0], "chunks": [[0], [2, 2]]}, {"ind": [1, 0], "chunks": [[1], [1, 3]]}], "lits": 0}
+    for _ in range(ctx.n(90, 900)):
+        p = gen_zerodim(rng)
+        yield "elem", {"prog": p, "stream": "zerodim"}
+        ls = _leaves(p, [])
+        yield "unify", {"args": [{"ind": list(range(len(l["shape"])))[::-1], "chunks": l["chunks"]} for l in ls], "lits": 0}
+    for _ in range(ctx.n(25, 250)):
+        nd = rng.randint(0, 2)
+        shape = [rng.randint(1, 4) for _ in range(nd)]
+        wshape = [s if rng.random() < 0.6 else 1 for s in shape][rng.randint(0, nd):]
+        yield "outname", {"shape": shape, "chunks": U.rand_chunks(rng, shape), "wshape": wshape,
+                          "wchunks": U.rand_chunks(rng, wshape), "salt": rng.randint(0, 9),
+                          "f": rng.choice(["add", "multiply", "negative", "sqrt", "maximum"])}
     G = U.ProgGen(rng, ELEM_W, leaf_dtypes=DTYPES, maxdim=4, maxnd=3, allow_zero=True, zero_chunks=0.12)
     for _ in range(ctx.n(140, 1800)):
         p, _x = G.gen(rng.randint(1, 4))
